@@ -183,7 +183,7 @@ class Controller(object):
 
         try:
             cmd = self.commands[cmd_name.lower()]
-        except KeyError:
+        except (KeyError, AttributeError):
             error_ = "unknown command: %r" % cmd_name
             return self.send_error(mid, cid, msg, error_, cast=cast,
                                    errno=errors.UNKNOWN_COMMAND)
